@@ -182,6 +182,13 @@ class WindowMonitor:
             my_spi = h['spi_i'] if h['flags'] & 0x08 else h['spi_r']
             sa = next((x for x in self.objs.values() if bytes(x.my_spi) == my_spi and str(x.my_addr) == src), None)
             if sa is None:
+                # a responder object that refuses the IKE_SA_INIT request (INVALID_KE_PAYLOAD, NO_PROPOSAL_CHOSEN, COOKIE) is created and
+                # dropped within the same iteration: its reply can only be checked against the request it answers
+                rh = _hdr(rec.input[2]) if (rec.kind == 'udp' and rec.input) else None
+                if resp and h['exch'] == 34 and rh is not None and not rh['flags'] & 0x20 and (rh['exch'], rh['mid'], rh['spi_i']) == (34, h['mid'], h['spi_i']) \
+                        and not h['flags'] & 0x08:
+                    ck.count('win.emitted_by_transient_responder')
+                    continue
                 ck.violation(f'emitted-datagram-with-spis-of-no-local-ike-sa:{EXCH.get(h["exch"], h["exch"])}', {'hdr': {k: v for k, v in h.items()}}, case)
                 continue
             if bool(h['flags'] & 0x08) != sa.is_initiator:
